@@ -50,7 +50,7 @@ pub open spec fn step(db: Db, e: Event) -> Db {
 pub open spec fn run(h: Seq<Event>) -> Db
     decreases h.len(),
 {
-    if h.len() == 0 { Map::empty() } else { step(run(h.drop_last()), h.last()) }
+    if h.len() == 0 { IMap::empty() } else { step(run(h.drop_last()), h.last()) }
 }
 
 /// A1 + A8 for a whole history: every id drawn for an accepted AddVersion is fresh at that moment,
